@@ -2490,6 +2490,11 @@ impl<'a> AstConverter<'a> {
                         self.push_work(method_call.args());
                         if let Some(type_instantiation) = method_call.type_instantiation() {
                             for type_info in type_instantiation.types() {
+                                if is_variadic_type(type_info).is_some() {
+                                    return Err(ConvertError::TypeInfo {
+                                        type_info: type_info.to_string(),
+                                    });
+                                }
                                 self.push_work(type_info);
                             }
                         }
@@ -2516,6 +2521,11 @@ impl<'a> AstConverter<'a> {
                 },
                 ast::Suffix::TypeInstantiation(type_instantiation) => {
                     for type_info in type_instantiation.types() {
+                        if is_variadic_type(type_info).is_some() {
+                            return Err(ConvertError::TypeInfo {
+                                type_info: type_info.to_string(),
+                            });
+                        }
                         self.push_work(type_info);
                     }
                 }
